@@ -142,6 +142,59 @@ def two_routes(n, bump, flip=False):
     return cl
 
 
+def long_two_routes(N, c, b):
+    """4 x N maze, start (1,0), end (1,N-1): the corridor in row 1 is walled between columns b and b+1 (near the end) and passed
+    by a +4 detour through rows 2,3; at column c (near the start) a branch climbs to row 0, runs to the end and comes down: +2.
+    The branch is the shortest route (N+1 steps); a solver whose heuristic over-estimates in proportion to the distance still
+    prefers the straight corridor when N is large enough."""
+    cl = np.zeros((2, 4, N), dtype=bool)
+    def link(a, b_):
+        (i, j), (k, l) = a, b_
+        if i == k: cl[1, i, min(j, l)] = True
+        else: cl[0, min(i, k), j] = True
+    row1 = [(1, j) for j in range(N)]
+    for a, b_ in zip(row1, row1[1:]):
+        if a != (1, b): link(a, b_)
+    det = [(1, b), (2, b), (3, b), (3, b + 1), (2, b + 1), (1, b + 1)]
+    for a, b_ in zip(det, det[1:]): link(a, b_)
+    br = [(1, c), (0, c)] + [(0, j) for j in range(c + 1, N)] + [(1, N - 1)]
+    for a, b_ in zip(br, br[1:]): link(a, b_)
+    return cl
+
+
+def mutation_sequences(ctx, n):
+    """the solver on ONE maze object whose connection array is edited in place between queries (state carried between calls,
+    e.g. a cache of neighbour lists, must not survive an edit): judged by BFS on the array as it is at the time of each query"""
+    import maze_dataset.maze.lattice_maze as LM
+    for k in range(n):
+        r, c, cl = random_maze(ctx.rng, 5)
+        if r * c < 2: continue
+        m = LM.LatticeMaze(connection_list=cl.copy())
+        cells = list(itertools.product(range(r), range(c)))
+        for rnd in range(3):
+            pairs = [(ctx.rng.choice(cells), ctx.rng.choice(cells)) for _ in range(6)]
+            cur = np.array(m.connection_list, dtype=bool)
+            for s, e in pairs:
+                d = bfs(r, c, cur, s)
+                try:
+                    p = m.find_shortest_path(s, e); got = len(p) - 1
+                    ok_walk = all((abs(a[0] - b[0]) + abs(a[1] - b[1]) == 1) and (cur[0, min(a[0], b[0]), a[1]] if a[1] == b[1] else cur[1, a[0], min(a[1], b[1])]) for a, b in zip(p, p[1:]))
+                except ValueError:
+                    got, ok_walk = None, True
+                ctx.case(["edit-seq", k, rnd, list(s), list(e)], nontrivial=rnd > 0)
+                want = d.get(e)
+                if got != want or not ok_walk:
+                    ctx.violate(f"{r}x{c} maze queried again after {rnd} in-place edit(s) of connection_list: {s}->{e} gives "
+                                f"{'ValueError' if got is None else str(got) + ' steps'}{'' if ok_walk else ' through a wall'}, BFS on the current array says {want if want is not None else 'not connected'}",
+                                dict(rows=r, cols=c, edges=[[int(a), int(b), int(cc)] for a, b, cc in zip(*np.nonzero(cur))], start=list(s), end=list(e), edits=rnd, sequence=True))
+                    return
+            # edit in place: flip one or two lattice edges
+            for _ in range(ctx.rng.randint(1, 2)):
+                if r > 1 and (c == 1 or ctx.rng.random() < 0.5): m.connection_list[0, ctx.rng.randrange(r - 1), ctx.rng.randrange(c)] ^= True
+                elif c > 1: m.connection_list[1, ctx.rng.randrange(r), ctx.rng.randrange(c - 1)] ^= True
+        ctx.count("edit_sequences")
+
+
 def big_jobs(rng, quick):
     """scale: grids far beyond the exhaustive range (a defect may need a long distance or a large coordinate to show)"""
     jobs = []
@@ -156,6 +209,9 @@ def big_jobs(rng, quick):
     for k, n in enumerate([50, 64] if quick else [30, 50, 64, 80, 100, 128]):
         cl = two_routes(n, rng.randrange(2, n - 3), flip=bool(k % 2))
         jobs.append((n, n, cl, [((0, 0), (n - 1, n - 1)), ((n - 1, n - 1), (0, 0))], f"tworoutes{n}"))
+    for N in ([2200, 4500] if quick else [1100, 2200, 4500, 9000, 20000]):
+        cl = long_two_routes(N, rng.randrange(1, 10), N - 2 - rng.randrange(1, 10))
+        jobs.append((4, N, cl, [((1, 0), (1, N - 1))], f"long{N}"))
     return jobs
 
 
@@ -184,6 +240,7 @@ def run(ctx):
         pairs = list(itertools.product(cells, cells)) if r * c <= 12 else [(ctx.rng.choice(cells), ctx.rng.choice(cells)) for _ in range(40)]
         jobs.append((r, c, cl, pairs, f"rnd{k}"))
     jobs += big_jobs(ctx.rng, ctx.quick)
+    mutation_sequences(ctx, 60 if ctx.quick else 1500)
     ctx.count("mazes", len(jobs))
     if ctx.quick:
         results = [solve_all(cl, pairs) for r, c, cl, pairs, _ in jobs]
@@ -206,6 +263,8 @@ def run(ctx):
 
 
 def search(ctx):
+    mutation_sequences(ctx, 300)
+    if ctx.violations: return
     for r, c, cl, pairs, tag in big_jobs(ctx.rng, False):
         if not judge(ctx, r, c, cl, solve_all(cl, pairs), tag):
             return
